@@ -34,6 +34,9 @@ pub enum Meta {
     EmptyName,
     EmptySymbol,
     Decimals256,
+    /// names padded with NULs / surrounded by spaces: non-empty, must be kept byte for byte
+    PaddedNul,
+    Spaced,
 }
 
 #[derive(Clone, Copy, Debug, Serialize, Deserialize, PartialEq, Eq)]
@@ -79,6 +82,8 @@ fn meta() -> impl Strategy<Value = Meta> {
         1 => Just(Meta::EmptyName),
         1 => Just(Meta::EmptySymbol),
         1 => Just(Meta::Decimals256),
+        1 => Just(Meta::PaddedNul),
+        1 => Just(Meta::Spaced),
     ]
 }
 
@@ -91,6 +96,8 @@ fn meta_vals(m: Meta) -> (Vec<u8>, Vec<u8>, u32) {
         Meta::EmptyName => (vec![], b"S".to_vec(), 7),
         Meta::EmptySymbol => (b"N".to_vec(), vec![], 7),
         Meta::Decimals256 => (b"Over".to_vec(), b"O".to_vec(), 256),
+        Meta::PaddedNul => (b"Pad\0\0".to_vec(), b"\0".to_vec(), 7),
+        Meta::Spaced => (b" Sp ".to_vec(), b"S\n".to_vec(), 7),
     }
 }
 
@@ -109,7 +116,7 @@ fn supply() -> impl Strategy<Value = Supply> {
 fn op() -> impl Strategy<Value = Op> {
     prop_oneof![
         5 => (0u8..2, 0u8..2, 0u8..2, meta(), supply(), minter_sel()).prop_map(|(its, deployer, salt, meta, supply, minter)| Op::DeployLocal { its, deployer, salt, meta, supply, minter }),
-        2 => (0u8..2, 0u8..2).prop_map(|(its, asset)| Op::RegisterCanonical { its, asset }),
+        3 => (0u8..2, 0u8..4).prop_map(|(its, asset)| Op::RegisterCanonical { its, asset }),
         3 => (0u8..2, proptest::option::of(0u8..6), 0u8..3, meta(), minter_sel()).prop_map(|(its, collide, fresh, meta, minter)| Op::RemoteDeploy { its, collide, fresh, meta, minter }),
         1 => (1u8..60).prop_map(Op::AdvanceDays),
     ]
@@ -139,10 +146,10 @@ impl Property for C11 {
         "C11"
     }
     fn rule(&self) -> &'static str {
-        "proptest histories (<=8 quick / <=14 thorough ops) over two ITS instances with different chain names sharing one gateway: local deployments (3 deployers x 3 salts; metadata plain / multi-byte / decimals 0, 255 / invalid; initial supply -5, 0, 1, 10^30; minter none / third party / deployer / the service itself), canonical registrations (2 assets), approved remote deploy messages with fresh or colliding ids, each possibly repeated. Oracle: ids, salts and token addresses equal the harness's own derivation (own Keccak over own XDR; sha256 of the contract-id preimage); registry (address, manager type) write-once per service, colliding operations fail with the ledger snapshot identical; every deployed token reports id and metadata, is owned by the service, minters = {service} + designated minter, deployer balance = max(supply,0); and an approved inbound transfer to each newly deployed token credits the recipient. non-trivial = a collision attempt, or supply > 0, or a minter present; distinct by Debug hash"
+        "proptest histories (<=8 quick / <=14 thorough ops) over two ITS instances with different chain names sharing one gateway: local deployments (3 deployers x 3 salts; metadata plain / multi-byte / decimals 0, 255 / invalid; initial supply -5, 0, 1, 10^30; minter none / third party / deployer / the service itself), canonical registrations (2 Stellar assets, a stand-alone interchain token reporting an id of its own, a token the service deployed itself), approved remote deploy messages with fresh or colliding ids, each possibly repeated. Oracle: ids, salts and token addresses equal the harness's own derivation (own Keccak over own XDR; sha256 of the contract-id preimage); registry (address, manager type) write-once per service, colliding operations fail with the ledger snapshot identical; every deployed token reports id and metadata, is owned by the service, minters = {service} + designated minter, deployer balance = max(supply,0); and an approved inbound transfer to each newly deployed token credits the recipient. non-trivial = a collision attempt, or supply > 0, or a minter present; distinct by Debug hash"
     }
     fn assumptions(&self) -> Vec<&'static str> {
-        vec!["local deployment with invalid metadata, with negative supply, or naming the service itself as minter is not decided by the statement (Either; effects checked when it succeeds)"]
+        vec!["whether a token that is not a plain asset contract may be registered as canonical is not decided by the statement (Either; when it succeeds the id must be the function of chain name and token address)", "local deployment with invalid metadata, with negative supply, or naming the service itself as minter is not decided by the statement (Either; effects checked when it succeeds)"]
     }
     fn cases(&self, tier: Tier) -> u64 {
         tier.pick(4000, 60000)
@@ -170,7 +177,11 @@ impl Property for C11 {
             Svc { client: InterchainTokenServiceClient::new(env, &w.its.id), id: w.its.id.clone(), chain: CHAIN_NAMES[0], reg: BTreeMap::new(), order: vec![] },
             Svc { client: InterchainTokenServiceClient::new(env, &its2.id), id: its2.id.clone(), chain: CHAIN_NAMES[1], reg: BTreeMap::new(), order: vec![] },
         ];
-        let assets = [w.new_asset(), w.new_asset()];
+        // canonical candidates: two Stellar assets, and a stand-alone interchain token that reports an id of its own
+        // (the id some local deployment on the first service would get)
+        let standalone_id = oracle_token_id(CHAIN_NAMES[0], &addr_sv(&w.users[0]), &h32("c11-salt", 0));
+        let standalone = register_native_token(env, &w.users[2], None, standalone_id, "Alone", "ALN", 7);
+        let assets = [w.new_asset(), w.new_asset(), standalone.address.clone()];
         env.mock_all_auths();
         for s in &svcs {
             s.client.set_trusted_chain(&sstr(env, "ethereum"));
@@ -315,8 +326,22 @@ impl Property for C11 {
                     }
                 }
                 Op::RegisterCanonical { asset, .. } => {
-                    let a = assets[*asset as usize % 2].clone();
                     let s = &svcs[si];
+                    // 3: a token this service deployed itself (it reports the id it was deployed under)
+                    let own_native = s.order.iter().find(|id| s.reg[*id].native).map(|id| s.reg[id].addr.clone());
+                    let a = match (*asset % 4, own_native) {
+                        (3, Some(t)) => {
+                            cx.label("canonical_candidate:token_deployed_by_the_service");
+                            t
+                        }
+                        (k, _) => {
+                            if k >= 2 {
+                                cx.label("canonical_candidate:stand_alone_interchain_token");
+                            }
+                            assets[(k as usize).min(2)].clone()
+                        }
+                    };
+                    let self_reporting = !assets[..2].contains(&a);
                     let want_salt = oracle_canonical_salt(s.chain, &addr_sv(&a));
                     let want_id = oracle_token_id_from_salt(&want_salt);
                     ensure_p!(s.client.canonical_token_deploy_salt(&a).to_array() == want_salt, "canonical_token_deploy_salt differs from the independent derivation");
@@ -334,10 +359,20 @@ impl Property for C11 {
                         cx.count("must_fail");
                         ensure_p!(!ok, "step {}: re-registering a canonical token succeeded", step);
                         ensure_p!(snapshot(env) == snap0 && events_len(env) == ev0, "step {}: failed registration changed state", step);
+                    } else if self_reporting && !ok {
+                        // whether a token that is not a plain asset contract may be registered is not decided by the statement
+                        cx.count("either");
+                        ensure_p!(snapshot(env) == snap0 && events_len(env) == ev0, "step {}: failed registration changed state", step);
                     } else {
-                        cx.count("must_succeed");
+                        if self_reporting {
+                            cx.count("either");
+                            nontrivial = true;
+                        } else {
+                            cx.count("must_succeed");
+                        }
                         ensure_p!(ok, "step {}: canonical registration refused: {:?}", step, r);
-                        ensure_p!(r.unwrap().unwrap().to_array() == want_id, "canonical token id differs from the independent derivation");
+                        ensure_p!(r.unwrap().unwrap().to_array() == want_id, "canonical token id differs from the independent derivation from (chain name, token address)");
+                        ensure_p!(s.client.token_address(&BytesN::from_array(env, &want_id)) == a, "canonical id does not resolve to the registered token address");
                         svcs[si].reg.insert(want_id, Entry { addr: a.clone(), native: false });
                         svcs[si].order.push(want_id);
                     }
